@@ -182,3 +182,43 @@ def region_of_match_arm(body, scrut_pred, variant):
             if atom[0] == "discr" and val == variant and scrut_pred(atom[1]):
                 out.append(((bb, tgt), edge_dominated(body, bb, tgt)))
     return out
+
+
+def const_alternatives(body, e):
+    """the string literals an expression can denote: [lit] for a constant, the literals of every definition for a
+    local assigned in several places (`let p = if .. { "a" } else { "b" }`), None when some definition is not a literal"""
+    from .mir import const_str, strip_sites, peel
+    v = const_str(body.expand_vars(strip_sites(e)))
+    if v is not None:
+        return [v]
+    r = peel(strip_sites(e))
+    seen = set()
+    out = []
+    todo = [r]
+    while todo:
+        x = peel(todo.pop())
+        if x[0] not in ("var", "tmp") or x[1] in seen:
+            cs = const_str(body.expand_vars(x))
+            if cs is None:
+                return None
+            out.append(cs)
+            continue
+        seen.add(x[1])
+        defs = body.defs.get(x[1], [])
+        if not defs:
+            return None
+        for bi, si in defs:
+            stmts = body.blocks[bi]["stmts"]
+            if not (isinstance(si, int) and 0 <= si < len(stmts) and stmts[si]["k"] == "assign"):
+                return None
+            rv = stmts[si]["rv"]
+            if rv.get("k") == "use":
+                o = rv["op"].get("copy") or rv["op"].get("move")
+                if o is not None and not o["p"]:
+                    todo.append(("var", o["l"], None))
+                    continue
+            cs = const_str(strip_sites(body.rvalue_expr(rv)))
+            if cs is None:
+                return None
+            out.append(cs)
+    return sorted(set(out)) or None
